@@ -10,17 +10,19 @@ src = sys.argv[1]
 ids = sys.argv[2:] or sorted(d for d in os.listdir(src) if re.fullmatch(r'C\d\d[a-z]', d))
 WT = '/tmp/wt/verify'
 def sh(cmd, cwd=None, timeout=900):
-    p = subprocess.run(cmd, shell=True, cwd=cwd, env=ENV, capture_output=True, text=True, timeout=timeout)
+    p = subprocess.run(cmd, shell=True, cwd=cwd, env=ENV, capture_output=True, text=True, errors='replace', timeout=timeout)
     return p.returncode, p.stdout + p.stderr
 base = json.load(open('/root/.vp/BASELINE.json'))['stable_pass']
 subprocess.run(f'git -C /repo worktree remove --force {WT} 2>/dev/null; git -C /repo worktree add -q --detach {WT} HEAD', shell=True)
-results = {}
+try: results = json.load(open(os.path.join(src, 'verify_results.json')))
+except Exception: results = {}
 for i in ids:
     d = os.path.join(src, i)
     meta = json.load(open(os.path.join(d, 'meta.json')))
     cmd = meta.get('demo_cmd', '')
     tags = '-tags verif' if '-tags verif' in cmd else ''
-    pkgdir = 'expr' if ('./expr' in cmd or '/expr/' in cmd) else '.'
+    demo_src = open(os.path.join(d, 'demo_test.go')).read()
+    pkgdir = 'expr' if ('./expr' in cmd or '/expr/' in cmd or re.search(r'^package expr\b', demo_src, re.M)) else '.'
     r = {'id': i}
     sh('git checkout -q -- . && git clean -fdq', WT)
     rc, out = sh(f'git apply --check {d}/patch.diff', WT)
@@ -53,6 +55,7 @@ for i in ids:
     r['ok'] = all([r['applies'], r['demo_passes_clean'], r['builds'], r['suite_ok'], r['demo_fails_patched']])
     r['tags'] = tags; r['pkgdir'] = pkgdir
     results[i] = r
+    json.dump(results, open(os.path.join(src, 'verify_results.json'), 'w'), indent=1)
     print(i, 'OK' if r['ok'] else r, flush=True)
 sh('git checkout -q -- . && git clean -fdq', WT)
 subprocess.run(f'git -C /repo worktree remove --force {WT}', shell=True)
